@@ -183,6 +183,13 @@ SCOPES = {
                                     L + 'expressions') or (
         fi.module == L + 'utils' and fi.qualname.startswith('convert_')),
     'C07': lambda fi: fi.module in (SL + 'yaqlized', 'yaql.yaqlization'),
-    'C13': lambda fi: fi.module in (SL + 'collections', SL + 'queries'),
+    # (the selectors / predicates the library functions call are Lambda
+    # closures: each activation publishes its arguments into a scope of its
+    # own - a lazy inner result keeps the scope it was made in)
+    'C13': lambda fi: fi.module in (SL + 'collections', SL + 'queries') or (
+        fi.module == L + 'yaqltypes' and 'Lambda.' in fi.qualname),
     'C19': lambda fi: fi.module in (SL + 'strings', SL + 'regex'),
+    # what a word / literal denotes depends on THIS engine's tables only:
+    # the lexer keeps no state shared between engines or between parses
+    'C16': lambda fi: fi.module == L + 'lexer',
 }
